@@ -16,6 +16,7 @@ def python_evaluate(s: str) -> int:
     try:
         val = eval(s)
         if isinstance(val, int):
+            str(val)  # ValueError if the value is too large to be rendered (in messages, as process arguments)
             return val
         else:
             raise NotAnIntegerException(s)
